@@ -20,7 +20,7 @@ func init() { checks["C16"] = c16 }
 func c16(args []string) {
 	c := chk.New("C16", "exploration", args)
 	c.Build(false)
-	c.Rule("generated graphs (<= 9 processes, file and parameter edges, ParamSource / ParamCombinator processes, independent branches): (1) every single in-port or parameter in-port left unconnected in turn (file in-ports also connected and then taken off again through the public Disconnect) -> Run must refuse before any command (exit != 0, empty command trace), while unconsumed out-ports are drained automatically (base run succeeds); (2) RunTo on every target set of size <= 2 plus random larger ones, addressed by name, by regex and by process value -> the set of processes with executed commands equals the reference's upstream closure over file and parameter connections, every task of it exactly once, files equal the closure's reference, no command of any other process; bundled components: the in-ports of MapToTags, FileSplitter, Concatenator, StreamToSubStream and the dependency port of FileGlobberDependent left unconnected must be refused too, and CommandToParams (whose command writes a marker file) must not run its command when it is outside the closure or the workflow is refused. distinct_nontrivial = distinct (graph shape, omitted port) refusals in graphs where some other process could have executed + distinct (graph shape, target set, addressing mode) with a proper closure (neither empty nor everything)")
+	c.Rule("generated graphs (<= 9 processes, file and parameter edges, ParamSource / ParamCombinator processes, independent branches): (1) every single in-port or parameter in-port left unconnected in turn (file in-ports also connected and then taken off again through the public Disconnect) -> Run must refuse before any command (exit != 0, empty command trace), while unconsumed out-ports are drained automatically (base run succeeds); (2) RunTo on every target set of size <= 2 plus random larger ones, addressed by name, by regex and by process value -> the set of processes with executed commands equals the reference's upstream closure over file and parameter connections, every task of it exactly once, files equal the closure's reference, no command of any other process; a target that depends on six staggered upstream tasks through FileGlobberDependent; bundled components: the in-ports of MapToTags, FileSplitter, Concatenator, StreamToSubStream and the dependency port of FileGlobberDependent left unconnected must be refused too, and CommandToParams (whose command writes a marker file) must not run its command when it is outside the closure or the workflow is refused. distinct_nontrivial = distinct (graph shape, omitted port) refusals in graphs where some other process could have executed + distinct (graph shape, target set, addressing mode) with a proper closure (neither empty nor everything)")
 	c.Assume("unconnected ports in processes outside a RunTo closure are not judged (the property states the wiring check for Run)")
 	rng := c.Rand("c16")
 	type job struct {
@@ -299,6 +299,25 @@ func c16(args []string) {
 			s2.Run = spec.Run{Mode: []string{"runto", "runtoregex", "runtoprocs"}[rep%3], Targets: []string{[]string{"gatherer", "^gatherer$", "gatherer"}[rep%3]}}
 			jobs = append(jobs, &job{s: s2, exp: evalRef(s2, nil), cfg: Cfg{Buf: 3, Procs: 2, SoftSec: 8}, kind: "runto", what: s2.Run.Mode + " gatherer (feeders that are ancestors of feeders)"})
 		}
+	}
+	// the target depends on its upstream through a dependent globber: every task in front of the globber belongs to the
+	// closure (6 staggered tasks), the process behind the target does not
+	for rep := 0; rep < c.Pick(3, 9); rep++ {
+		s := &spec.Spec{Name: "depglobrunto", MaxTasks: 2, Sources: map[string]string{"g1.dat": "g1\n", "g2.dat": "g2\n"}}
+		in, o1 := []spec.PortDecl{{Name: "in"}}, []spec.PortDecl{{Name: "out"}}
+		src := &spec.Proc{Name: "src", Kind: spec.KFileSource}
+		for k := 0; k < 6; k++ {
+			f := fmt.Sprintf("r%02d.txt", k)
+			src.Files = append(src.Files, f)
+			s.Sources[f] = f + "\n"
+		}
+		s.Procs = append(s.Procs, src, &spec.Proc{Name: "maker", Kind: spec.KCmd, Cmd: spec.BuildCmd("maker", in, o1, nil, nil, map[string]string{"sleep": "50"})},
+			&spec.Proc{Name: "GL", Kind: spec.KGlobber, Files: []string{"g*.dat"}, DepIn: true},
+			&spec.Proc{Name: "use", Kind: spec.KCmd, Cmd: spec.BuildCmd("use", in, o1, nil, nil, nil)},
+			&spec.Proc{Name: "report", Kind: spec.KCmd, Cmd: spec.BuildCmd("report", in, o1, nil, nil, nil)})
+		s.Conns = append(s.Conns, &spec.Conn{From: "src.out", To: "maker.in"}, &spec.Conn{From: "maker.out", To: "GL.in_dep"}, &spec.Conn{From: "GL.out", To: "use.in"}, &spec.Conn{From: "use.out", To: "report.in"})
+		s.Run = spec.Run{Mode: []string{"runto", "runtoregex", "runtoprocs"}[rep%3], Targets: []string{[]string{"use", "^use$", "use"}[rep%3]}}
+		jobs = append(jobs, &job{s: s, exp: evalRef(s, nil), cfg: Cfg{Buf: []int{1, 3, 128}[rep%3], Procs: 2, SoftSec: 8}, kind: "runto", what: s.Run.Mode + " use (behind a dependent globber)"})
 	}
 	// a ParamCombinator port that only an excluded process uses, beside a slow selected process
 	for rep := 0; rep < c.Pick(3, 9); rep++ {
